@@ -46,6 +46,9 @@ Proof. intros m _. split; reflexivity. Qed.
 (* same manager, same nodes and free nodes (the sentinel may have appeared) *)
 Definition same_nodes (l l1 : xlist) : Prop := lm l1 = lm l /\ lnodes l1 = lnodes l /\ lfree l1 = lfree l.
 
+Lemma same_nodes_refl : forall l, same_nodes l l.
+Proof. intros l; unfold same_nodes; auto. Qed.
+
 Lemma get_head_spec : forall tag l h h1 l1 ok F, linv (lowned l ++ F) h -> get_head tag l h = (h1, l1, ok) ->
   linv (lowned l1 ++ F) h1 /\ same_nodes l l1 /\
   (ok = true -> lhead l1 <> None) /\ (ok = false -> l1 = l /\ live h1 = live h) /\
@@ -103,11 +106,10 @@ Proof.
     specialize (HD eq_refl). unfold lpost. split; [exact I3|]. split; [apply lwf_of_head; congruence|].
     split; [destruct SN; congruence|]. intros ->. destruct (T3 eq_refl) as [-> L].
     unfold get_head in G. destruct (lhead l) eqn:E.
-    + inversion G; subst. left. split; auto. unfold same_nodes; auto.
+    + inversion G; subst. left. split; auto.
     + destruct (alloc (lm l) tag 1 h) as [h4 [id|]] eqn:A; inversion G; subst.
       right. exists id. apply alloc_some in A. destruct A as [_ [A _]]. split; [congruence|exact SN].
-  - inversion H; subst. destruct (TH eq_refl) as [-> L]. unfold lpost. split; auto. split; auto. split; auto.
-    intros _. left. split; auto. unfold same_nodes; auto.
+  - inversion H; subst. destruct (TH eq_refl) as [-> L]. unfold lpost; sp; auto; intros _; left; split; auto using same_nodes_refl.
 Qed.
 
 Lemma list_clear_spec : forall tag l h h1 l1 ok F, lwf l -> linv (lowned l ++ F) h ->
@@ -167,9 +169,6 @@ Qed.
 (* what an operation that threw may have changed: nothing but a lazily allocated sentinel *)
 Definition only_heads (w w1 : xlist * xlist) : Prop :=
   same_nodes (fst w) (fst w1) /\ same_nodes (snd w) (snd w1).
-
-Lemma same_nodes_refl : forall l, same_nodes l l.
-Proof. intros l; unfold same_nodes; auto. Qed.
 
 Lemma only_heads_upd : forall i w l1, same_nodes (sel i w) l1 -> only_heads w (upd i w l1).
 Proof.
